@@ -198,6 +198,20 @@ PROPS["C12"] = {
     "assumptions": [TIME_RANGE, "engine-only: harnesses of package sqlite cannot be replayed natively (a sqlite.Value only exists inside a running SQLite); counterexamples are reported without native confirmation"],
 }
 
+PROPS["C03"] = {
+    "harnesses": [
+        {"pkg": ".", "dir": "s3db", "entry": "VerifH_C03_open_vs_commit", "no_native": True,
+         "quick": {"params": "preempt=2", "workers": 16, "timeout": 1800},
+         "thorough": {"params": "preempt=4", "workers": 16, "timeout": 7200}},
+        {"pkg": ".", "dir": "s3db", "entry": "VerifH_C03_two_mergers", "no_native": True,
+         "quick": {"params": "preempt=2", "workers": 16, "timeout": 1800},
+         "thorough": {"params": "preempt=3", "workers": 16, "timeout": 7200}},
+    ],
+    "bounds": "all interleavings with at most 2 (quick) | 4 and 3 (thorough) preemptive context switches, at object-store-request granularity, of (1) one client committing a row on top of v0 and one client opening (read-only | writable) and scanning, (2) two clients opening writable on two unmerged versions; followed by sequential later opens",
+    "outside": "LIST pagination, eventually consistent stores (the stub is linearizable per request), more than 2 concurrent clients, more than one commit per client",
+    "assumptions": [TIME_RANGE, "a client's internal goroutines (mast flush workers) run in a fixed order; only the order of requests between clients is explored", "engine-only: schedules are not replayed natively"],
+}
+
 # Properties not (yet) claimed, each with the reason.  Kept current by hand.
 NOT_APPLICABLE = {
     "C%02d" % i: "check not built yet in this session (breadth-first build order, DESIGN §9); no claim is made" for i in range(1, 21)
